@@ -109,4 +109,16 @@ MORE['C14'] = dict(
           "state-store reads/writes and board sends; the final state must equal one of the two serial orders."),
     ref='7 C14', note=NODE_NOTE)
 
+AIR_NOTE = ("Trusted: Lean kernel + the three standard axioms; the airdiff correspondence (real machines stopped / reopened / replayed at every restart point; bookkeeping of the durable log predicted by the compiled Lean model); verif hooks "
+            "(database snapshot, instance presence). Modelled, not verified: the operation handlers are an abstract deterministic function in the model (kyber DKG/VSS, ECIES and BLS are not modelled); LevelDB durability; result files.")
+
+MORE['C12'] = dict(
+    technique='Lean 4 theorems about a machine model with an abstract deterministic handler (invariant: volatile instance = replay of the durable log, by induction over any operation sequence; restart = identity; kill before / after logging) + restart injection on real airgapped machines (airdiff)',
+    text=("Proof, partial. lean/Dc4bcVerif/Props/C12.lean over Model/Air.lean, for EVERY deterministic handler whose unlogged (signing) operations leave the DKG instance alone: consistent_run (after any operation sequence the volatile instance is what "
+          "replaying the log rebuilds), restart_is_identity, carries_on (a machine stopped after any sequence, reopened and replayed gives for every continuation the results and final state of one that never stopped), carries_on_many (a restart after every "
+          "single operation), dies_before_log (killed after computing, before logging: the machine is the one before the operation), replayed_result (killed after logging, before the result file: the replay re-produces the lost result), same_seed_same_machine. "
+          "Not proved: determinism of the real handlers (encodings do differ: Go map iteration order in deals/responses, ECIES randomness) and that signing does not touch the instance: assumptions, checked by airdiff on real machines at every restart point; "
+          "LevelDB durability. Tie: airdiff (above) and the bookkeeping stream compared with the compiled model."),
+    ref='7 C12', note=AIR_NOTE)
+
 NOT_APPLICABLE = {}
